@@ -127,10 +127,26 @@ class Seq:
             for x, it, var, body in hirq.for_loops(n):
                 if x is n:
                     src = [it] + [LETS[y["lid"]] for y in hirq.walk(it) if y.get("k") == "path" and y.get("lid") in LETS]
-                    names = frozenset((c.get("def") or "").split("::")[-1] for s_ in src for c in hirq.calls(s_) if (c.get("def") or "").startswith("structs::")) or frozenset(
+                    # the collection accessor(s) the iterable is built from - calls made inside the closures of adaptors
+                    # (filter / map predicates) are not sources
+                    inner = {id(c) for s_ in src for cl_ in hirq.walk(s_) if cl_.get("k") == "closure" for c in hirq.calls(cl_.get("body", {}))}
+                    names = frozenset((c.get("def") or "").split("::")[-1] for s_ in src for c in hirq.calls(s_) if (c.get("def") or "").startswith("structs::") and id(c) not in inner) or frozenset(
                         "param:" + str(self.h["params"][i].get("name")) for i, p_ in enumerate(self.h["params"]) if p_.get("lid") in _local_lids(it)
                     )
-                    self._walk(body, guards, loops + [names])
+                    # `.filter(|x| cond)` on the way to the loop guards the body like `if cond { .. }` inside it
+                    g2 = list(guards)
+                    for s_ in src:
+                        for c in hirq.walk(s_):
+                            if c.get("k") == "mcall" and c.get("name") == "filter" and c.get("args"):
+                                cl = hirq.strip(c["args"][0])
+                                if cl.get("k") == "closure":
+                                    cb_ = hirq.strip(cl["body"])
+                                    while cb_.get("k") == "block" and not cb_.get("stmts") and cb_.get("expr"):
+                                        cb_ = hirq.strip(cb_["expr"])
+                                    gn = guard_names(cb_)
+                                    if gn[0]:
+                                        g2.append(gn)
+                    self._walk(body, g2, loops + [names])
                     return
         if k == "match" and n.get("src") == "Normal":
             self._walk(n["scrut"], guards, loops)
